@@ -3472,7 +3472,13 @@ fn gen_c17_expiry(rng: &mut Rng, ops: &mut Vec<String>, stats: &mut Stats) {
     stats.bump("gen.c17.expiry");
     let a = 998 + 1000 * rng.range(0, 30);
     let vmin = *rng.pick(&[2u64, 3, 3]);
-    ops.push(format!("snew A k{} {} 4 0 ip4 all 16 16 1 {}", a, rng.range(1, 50), vmin));
+    // (half of the nodes are dual-stack: there every PONG also asks whether the other family still needs
+    // votes, which prunes expired votes on a path of its own)
+    if rng.chance(1, 2) {
+        ops.push(format!("snew A k{} {} {} 0 dual all 16 16 1 {}", a, rng.range(1, 50), *rng.pick(&["46", "4"]), vmin));
+    } else {
+        ops.push(format!("snew A k{} {} 4 0 ip4 all 16 16 1 {}", a, rng.range(1, 50), vmin));
+    }
     let n = vmin + rng.range(2, 4);
     for i in 0..n {
         ops.push(format!("sest A k{}:1:4:0 = o", 400 + i));
